@@ -705,6 +705,67 @@ def tie_builtins(ctx):
                 BUILTIN_PRELUDE + "@guppy\ndef takes_nat(y: nat) -> nat:\n    return y\n", wiring=False)
 
 
+# ---------------------------------------------------------------------- constructor probes
+# `array(...)` with 0 / 1 / n arguments of every kind (scalars, arrays, tuples, structs, generators), nested, and the
+# other std constructors callable in both modes (some / nothing, struct constructors, tuples).  The declared return
+# type pins the type of the constructed value, so a constructor that builds a different shape in one mode is rejected
+# there (accept/reject disagreement) even where the op multiset would not show it.
+CTOR_PRELUDE = (
+    "from guppylang.std.option import Option, some, nothing\n"
+    "@guppy.struct\nclass S:\n    a: int\n    b: float\n"
+    "@guppy.struct\nclass W:\n    s: S\n    n: int\n"
+    "@guppy.struct\nclass B:\n    xs: array[int, 2]\n    k: int\n"
+)
+A2 = "array[int, 2]"
+CTORS = [
+    ("array()", "", "array[int, 0]", "return array()"),
+    ("array(scalar)", "x: int", "array[int, 1]", "return array(x)"),
+    ("array(expr)", "x: int", "array[int, 1]", "return array(x * 2)"),
+    ("array(n scalars)", "x: int, y: int", "array[int, 3]", "return array(x, y, x + y)"),
+    ("array(floats)", "x: float", "array[float, 2]", "return array(x, 2.5)"),
+    ("array(bools)", "b: bool", "array[bool, 2]", "return array(b, True)"),
+    ("array(consts)", "", "array[int, 3]", "return array(1, 2, 3)"),
+    ("array(one array)", f"xs: {A2} @owned", f"array[{A2}, 1]", "return array(xs)"),
+    ("len(array(one array))", f"xs: {A2} @owned", "int", "m = array(xs)\nreturn len(m)"),
+    ("array(one array)[0][1]", f"xs: {A2} @owned", "int", "m = array(xs)\nreturn m[0][1]"),
+    ("array(two arrays)", f"xs: {A2} @owned, ys: {A2} @owned", f"array[{A2}, 2]", "return array(xs, ys)"),
+    ("array(one local array)", "x: int", f"array[{A2}, 1]", "xs = array(x, x)\nreturn array(xs)"),
+    ("array(array(..))", "x: int", f"array[{A2}, 1]", "return array(array(x, x + 1))"),
+    ("array(array, array)", "x: int, y: int", "array[array[int, 1], 2]", "return array(array(x), array(y))"),
+    ("array(array(array))", "x: int", "array[array[array[int, 1], 1], 1]", "return array(array(array(x)))"),
+    ("array(one tuple)", "x: int", "array[tuple[int, int], 1]", "return array((x, x + 1))"),
+    ("array(tuples)", "x: int", "array[tuple[int, bool], 2]", "return array((x, True), (1, False))"),
+    ("array(one struct)", "x: int, y: float", "array[S, 1]", "return array(S(x, y))"),
+    ("array(structs)", "x: int, y: float", "array[S, 2]", "return array(S(x, y), S(1, 2.0))"),
+    ("array(generator range)", "", "array[int, 3]", "return array(i + 1 for i in range(3))"),
+    ("array(generator over array)", "xs: array[int, 3] @owned", "array[int, 3]", "return array(x + 1 for x in xs)"),
+    ("array(generator over borrowed array)", "xs: array[int, 3]", "array[int, 3]", "return array(x + 1 for x in xs.copy())"),
+    ("array(generator of arrays)", "", f"array[{A2}, 2]", "return array(array(i, i) for i in range(2))"),
+    ("array(elements of array)", "xs: array[int, 3]", A2, "return array(xs[0], xs[1] + xs[2])"),
+    ("some(x)", "x: int", "Option[int]", "return some(x)"),
+    ("some(array)", f"xs: {A2} @owned", f"Option[{A2}]", "return some(xs)"),
+    ("some(tuple)", "x: int", "Option[tuple[int, int]]", "return some((x, x))"),
+    ("nothing()", "", "Option[int]", "return nothing()"),
+    ("nothing[int]()", "", "Option[int]", "return nothing[int]()"),
+    ("some(x).unwrap()", "x: int", "int", "return some(x).unwrap()"),
+    ("struct", "x: int, y: float", "S", "return S(x, y)"),
+    ("struct consts", "", "S", "return S(1, 2.5)"),
+    ("nested struct", "x: int, y: float", "W", "return W(S(x, y), x)"),
+    ("struct with array", "x: int", "B", "return B(array(x, x), 1)"),
+    ("struct with array arg", f"xs: {A2} @owned", "B", "return B(xs, 1)"),
+    ("tuple", "x: int, y: float", "tuple[float, int]", "return (y, x)"),
+    ("nested tuple", "x: int", "tuple[int, tuple[int, int]]", "return (x, (x, x))"),
+    ("tuple of arrays", "x: int", f"tuple[{A2}, int]", "return (array(x, x), x)"),
+    ("empty tuple", "", "tuple[()]", "return ()"),
+]
+
+
+def tie_ctors(ctx):
+    for name, sig, ret, body in CTORS:
+        # a comprehension is unrolled by Python at trace time (no iterator loop): accept/reject + return type only
+        _check_pair(ctx, "ctor:" + name, sig, ret, body, None, CTOR_PRELUDE, wiring=False, fold="generator" in name)
+
+
 def _binary_cases(ctx, ops):
     rng = ctx.rng
     cases = []
@@ -768,6 +829,7 @@ def tie(ctx):
     tie_deps(ctx)
     tie_const_reuse(ctx)
     tie_builtins(ctx)
+    tie_ctors(ctx)
 
 
 def _check_pair(ctx, name, sig, ret, body, comptime_body, prelude, wiring, model=None, model_line=None, both_modes_only=False, fold=False):
